@@ -228,11 +228,54 @@ func runC11(w *vio.Writer, rep *vio.Report, seed int64, nh, steps, nq int, only 
 		for i := 0; i < steps; i++ {
 			dml = append(dml, randomDML(g, tabs, &idxN))
 		}
+		// failing statements interleaved with the history: an error at bind, analysis or execution time,
+		// through any execution path, must not leave a stale snapshot or transaction behind in the session
+		type failing struct {
+			text string
+			vals []Value
+			path int // 0 plain, 1 bound parameters, 2 SQL PREPARE
+			sess int
+		}
+		var fails [][]failing
+		for i := 0; i <= steps; i++ {
+			var fs []failing
+			for k := 0; k < g.R.Intn(3); k++ {
+				t := tabs[g.R.Intn(len(tabs))]
+				// mostly the table the coming change touches: that is the snapshot that would go stale
+				if i > 0 && g.R.Intn(4) > 0 {
+					for _, cand := range tabs {
+						if strings.Contains(dml[i-1], " "+cand.Name+" ") || strings.HasSuffix(dml[i-1], " "+cand.Name) {
+							t = cand
+						}
+					}
+				}
+				var f failing
+				switch g.R.Intn(6) {
+				case 0:
+					f = failing{text: fmt.Sprintf("SELECT nosuch FROM %s WHERE c1 = ?", t.Name), vals: []Value{Int(1)}}
+				case 1:
+					f = failing{text: fmt.Sprintf("SELECT c1 FROM %s WHERE nosuch_fn(c1) = ?", t.Name), vals: []Value{Int(0)}}
+				case 2:
+					f = failing{text: fmt.Sprintf("SELECT c1 FROM %s WHERE c1 = (SELECT c1 FROM %s UNION ALL SELECT ? UNION ALL SELECT 2)", t.Name, t.Name), vals: []Value{Int(1)}}
+				case 3:
+					f = failing{text: fmt.Sprintf("SELECT * FROM %s a JOIN nosuch_table b ON a.c1 = b.c1 WHERE a.c1 > ?", t.Name), vals: []Value{Int(-5)}}
+				case 4:
+					f = failing{text: fmt.Sprintf("UPDATE %s SET c1 = nosuch + ? WHERE c1 IS NOT NULL", t.Name), vals: []Value{Int(1)}}
+				default:
+					f = failing{text: fmt.Sprintf("SELECT c1, COUNT(*) FROM %s WHERE c1 < ? GROUP BY c9", t.Name), vals: []Value{Int(9)}}
+				}
+				f.path = g.R.Intn(3)
+				f.sess = g.R.Intn(2)
+				fs = append(fs, f)
+			}
+			fails = append(fails, fs)
+		}
 		if only.skip(h) {
 			continue
 		}
 		db, s1 := setup(tabs)
 		s2 := db.NewSession()
+		s3 := db.NewSession()
 		texts := make([]string, len(qs))
 		for i, q := range qs {
 			texts[i] = (&Renderer{}).Query(q)
@@ -245,17 +288,40 @@ func runC11(w *vio.Writer, rep *vio.Report, seed int64, nh, steps, nq int, only 
 		}
 		last := make([]string, len(qs))
 		for step := 0; step <= steps; step++ {
+			// 1. failing statements first: whatever they leave behind in their session must not survive
+			//    until that session's next statement, which comes only AFTER another session's change
+			failedIn := -1
+			for _, f := range fails[step] {
+				sess := []*eng.Session{s1, s2}[f.sess]
+				failedIn = f.sess
+				var r eng.Result
+				switch f.path {
+				case 0:
+					inl := f.text
+					for _, v := range f.vals {
+						inl = strings.Replace(inl, "?", v.SQL(), 1)
+					}
+					r = sess.Exec(inl)
+				case 1:
+					r = execBoundNoPrepare(db, sess, f.text, f.vals)
+				default:
+					r = sess.Exec("PREPARE bad FROM '" + strings.ReplaceAll(f.text, "'", "''") + "'")
+				}
+				kinds["failing:"+r.Kind]++
+			}
+			// 2. the change, made by the session that did not just fail (or alternating)
 			after := "initial"
 			if step > 0 {
 				after = dml[step-1]
 				sess := s1
-				if step%3 == 0 {
-					sess = s2 // some changes come from the other session
+				if failedIn == 0 || (failedIn < 0 && step%3 == 0) {
+					sess = s2
 				}
 				r := sess.Exec(after)
 				kinds["dml:"+r.Kind]++
 			}
-			w.Write(snapshot(s1, tabs, after))
+			// the recorded state is read by a THIRD session that runs nothing else
+			w.Write(snapshot(s3, tabs, after))
 			for i, q := range qs {
 				id := h*10000 + step*100 + i
 				ev := multiEvent{Ev: "multi", ID: id, Q: q, Tags: Tags(q), After: after}
@@ -352,6 +418,32 @@ func execBound(db *eng.DB, s *eng.Session, text string, vals []Value) (res eng.R
 	}
 	if _, err := db.Engine.PrepareQuery(ctx, text); err != nil {
 		return eng.Result{Kind: "err", Msg: err.Error(), Rows: [][]Value{}}
+	}
+	sch, iter, _, err := db.Engine.QueryWithBindings(ctx, text, nil, bindings, nil)
+	if err != nil {
+		return eng.Result{Kind: "err", Msg: err.Error(), Rows: [][]Value{}}
+	}
+	rows, err := sql.RowIterToRows(ctx, iter)
+	if err != nil {
+		return eng.Result{Kind: "err", Msg: err.Error(), Rows: [][]Value{}}
+	}
+	return eng.FromRows(sch, rows)
+}
+
+// execBoundNoPrepare goes straight to QueryWithBindings with bindings for a text the session has not
+// prepared (the engine prepares it on the fly).
+func execBoundNoPrepare(db *eng.DB, s *eng.Session, text string, vals []Value) (res eng.Result) {
+	defer func() {
+		if r := recover(); r != nil {
+			res = eng.Result{Kind: "panic", Msg: fmt.Sprint(r), Rows: [][]Value{}}
+		}
+	}()
+	ctx := s.Ctx()
+	bindings := map[string]sqlparser.Expr{}
+	for i, v := range vals {
+		sv := sqltypes.NewInt64(int64(toInt(v.V)))
+		e, _ := sqlparser.ExprFromValue(sv)
+		bindings[fmt.Sprintf("v%d", i+1)] = e
 	}
 	sch, iter, _, err := db.Engine.QueryWithBindings(ctx, text, nil, bindings, nil)
 	if err != nil {
